@@ -2,37 +2,8 @@
 import json
 from . import common as c
 
-RETRY_MARK = "dependency_monitor_test.go"  # package init listens on a fixed port; a parallel run can collide
-
-
-def wait_port_free(port=10638, limit=600):
-    """cmd/keymasterd's own test init listens on 127.0.0.1:10638 and its test binary dies at start when
-    another test binary of that package (any concurrent check run on this machine) holds the port."""
-    import socket
-    import time
-    t0 = time.time()
-    while time.time() - t0 < limit:
-        s = socket.socket()
-        s.settimeout(0.5)
-        try:
-            s.connect(("127.0.0.1", port))
-        except OSError:
-            return True
-        finally:
-            s.close()
-        time.sleep(0.5)
-    return False
-
-
 def harness(ctx, pkg, ops, race=False, tag="h"):
-    """run_harness with a retry for the fixed-port collision of cmd/keymasterd's own test init."""
-    for attempt in range(8):
-        if pkg == "cmd/keymasterd":
-            wait_port_free()
-        impl, log, rc = c.run_harness(ctx, pkg, "C20", ops, race=race, tag="%s%d" % (tag, attempt))
-        if rc == 0 or RETRY_MARK not in log or len(impl) == len(ops):
-            break
-        ctx.notes.pop()
+    impl, log, rc = c.run_harness(ctx, pkg, "C20", ops, race=race, tag=tag)
     return [l.split(" #")[0] for l in impl], impl, rc
 
 
@@ -187,6 +158,122 @@ def run_recorder(ctx, facts, scen):
             c.add_violation(ctx, key, "%s of user %s at now=%s: history before=[%s] after=[%s]: %s" % (
                 "save+restart" if kind == "saveload" else "expireOldEvents", u, now, b.split("/")[0], a.split("/")[0], v),
                 {"stream": "r", "ops": upto, "user": u, "before": b, "after": a, "now": now, "judge": v})
+    stats["judged"] = len(jops)
+    return stats
+
+
+# ----------------------------------------------------------------------------- recorder: the real event loop
+
+def loop_rec(rng, sid):
+    u = rng.choice(USERS)
+    k = rng.choice(["auth", "sp", "web", "cert", "cert"])
+    if k == "auth":
+        return "l rec %d %s auth %d %d" % (sid, u, rng.randrange(1, 5), rng.randrange(2))
+    if k == "sp":
+        return "l rec %d %s sp %s" % (sid, u, rng.choice(URLS))
+    if k == "web":
+        return "l rec %d %s web" % (sid, u)
+    return "l rec %d %s cert %s %d" % (sid, u, rng.choice(["ssh", "x509"]), rng.choice([1, 2, 16, 24]))
+
+
+def loop_ops(rng, nscen, nphases, wait_ms):
+    """recorders run in lockstep so that one wait serves the save timers of all of them"""
+    fixed = [["R", "Q"], ["R"], ["Q", "R"], ["R", "Q", "R"], ["R", "R", "Q", "Q"], [], ["Q"], ["R", "R", "R"]]
+    ops = ["l base"] + ["l new %d" % i for i in range(1, nscen + 1)]
+    for ph in range(nphases):
+        for sid in range(1, nscen + 1):
+            if ph == 0 and sid <= len(fixed):
+                pat = fixed[sid - 1]
+            else:
+                pat = [rng.choice(["R", "R", "Q"]) for _ in range(rng.randrange(0, 6))]
+            for x in pat:
+                ops.append(loop_rec(rng, sid) if x == "R" else "l query %d" % sid)
+        ops.append("l wait %d" % wait_ms)
+        for sid in range(1, nscen + 1):
+            if rng.random() < 0.3:
+                ops.append("l query %d" % sid)
+            if ph == nphases - 1 or rng.random() < 0.6:
+                ops += ["l query %d" % sid, "l restart %d" % sid, "l query %d" % sid]
+    return ops
+
+
+def qmap(line):
+    m = {}
+    for tok in line.split()[1:]:
+        u, v = tok.split("=", 1)
+        m[u] = v
+    return m
+
+
+def run_loop(ctx, facts, ops):
+    impl, raw, rc = harness(ctx, "eventmon/eventrecorder", ops, tag="l")
+    if rc != 0 or len(impl) != len(ops):
+        ctx.broken.append("harness eventrecorder (event loop) did not complete (exit %d, %d/%d lines)" % (rc, len(impl), len(ops)))
+        return {}
+    base = "0"
+    for o, l in zip(ops, impl):
+        if o == "l base" and l.startswith("base "):
+            base = l.split()[1]
+    mops, impl_cmp = [], []
+    for o, l in zip(ops, impl):
+        f = o.split()
+        if f[1] == "base":
+            mops.append("l base " + base)
+        elif f[1] == "rec":
+            if f[4] == "cert":
+                mops.append(" ".join(f[:6] + [str(int(f[6]) * 3600), base]))
+            else:
+                mops.append(o + " " + base)
+        elif f[1] == "wait":
+            mops.append("l wait")
+        elif f[1] == "restart":
+            mops.append("%s %s" % (o, l.rsplit("now=", 1)[1] if "now=" in l else "x"))
+            l = l.rsplit(" now=", 1)[0]
+        else:
+            mops.append(o)
+        impl_cmp.append(l)
+    model = c.run_driver(ctx, "model", mops)
+    c.diff_streams(ctx, "eventrecorder event loop (record / RequestEvents query / deferred save / restart) vs KM.Events.loopStep",
+                   mops, impl_cmp, model)
+    stats = {"recorders": sum(1 for o in ops if o.startswith("l new")), "records": 0, "queries": 0, "restarts": 0, "waits": 0,
+             "restarts_judged": 0, "query_between_record_and_save": 0, "events_at_restart": 0}
+    jops, jmeta = [], []
+    pending_q = {}     # sid -> a query happened since the last record and before the next wait
+    dirty = {}
+    for i, (o, l) in enumerate(zip(ops, impl)):
+        f = o.split()
+        if f[1] == "rec":
+            stats["records"] += 1
+            dirty[f[2]] = True
+            pending_q[f[2]] = False
+        elif f[1] == "query":
+            stats["queries"] += 1
+            if dirty.get(f[2]):
+                pending_q[f[2]] = True
+        elif f[1] == "wait":
+            stats["waits"] += 1
+            stats["query_between_record_and_save"] += sum(1 for s, d in dirty.items() if d and pending_q.get(s))
+            dirty = {}
+        elif f[1] == "restart" and "now=" in raw[i]:
+            stats["restarts"] += 1
+            if not (ops[i - 1] == "l query " + f[2] and i + 1 < len(ops) and ops[i + 1] == "l query " + f[2]):
+                continue
+            now = raw[i].rsplit("now=", 1)[1]
+            before, after = qmap(impl[i - 1]), qmap(impl[i + 1])
+            stats["restarts_judged"] += 1
+            for u in sorted(set(before) | set(after)):
+                b, a = before.get(u, "-"), after.get(u, "-")
+                jops.append("persist %s %s %s" % (now, b, a))
+                jmeta.append((i, f[2], u, b, a, now))
+                stats["events_at_restart"] += 0 if b == "-" else len(b.split("|"))
+    verdicts = c.run_driver(ctx, "judge", jops) if jops else []
+    for (i, sid, u, b, a, now), v in zip(jmeta, verdicts):
+        if v != "ok":
+            mine = [o for o in ops[:i + 2] if o.split()[1] in ("base", "wait") or (len(o.split()) > 2 and o.split()[2] == sid)]
+            c.add_violation(ctx, "eventloop-lost-events" if v.startswith("viol lost") else "eventloop-history-changed",
+                            "recorder %s, user %s: history before the restart=[%s] after=[%s]: %s (ops of this recorder: %s)" % (
+                                sid, u, b, a, v, "; ".join(x for x in mine if x.split()[1] not in ("base", "new"))[:400]),
+                            {"stream": "l", "ops": mine, "user": u, "before": b, "after": a, "now": now, "judge": v})
     stats["judged"] = len(jops)
     return stats
 
@@ -466,7 +553,7 @@ def run(ctx):
     retention = facts["c20"]["load_retention_s"]
     if ctx.replay:
         rp = json.load(open(ctx.replay))
-        by = {"r": [], "n": [], "i": []}
+        by = {"r": [], "n": [], "i": [], "l": []}
         for v in rp.get("violations", []):
             r = v.get("replay", {})
             if r.get("stream") in by and r.get("ops"):
@@ -474,8 +561,17 @@ def run(ctx):
         rstats = run_recorder(ctx, facts, by["r"] or rec_scenarios(ctx.rng, 1, retention))
         nstats = run_notifier(ctx, facts, by["n"]) if by["n"] else {}
         istats = run_issuing(ctx, [o for s in by["i"] for o in s]) if by["i"] else {}
+        lstats = {}
+        for lops in by["l"][:3]:
+            lstats = run_loop(ctx, facts, lops)
     else:
         rstats = run_recorder(ctx, facts, rec_scenarios(ctx.rng, 120 if q else 2500, retention))
+        delay = facts["c20"]["save_delay_ms"]
+        if 0 < delay <= 10000:
+            lstats = run_loop(ctx, facts, loop_ops(ctx.rng, 40 if q else 400, 2 if q else 4, delay + 700))
+        else:
+            lstats = {}
+            ctx.broken.append("eventLoop's deferred save delay is %d ms: the event-loop harness cannot wait it out" % delay)
         ctx.coverage["t_recorder"] = round(time.time() - ctx.t0, 1)
         nstats = run_notifier(ctx, facts, notif_scenarios(ctx.rng, 25 if q else 400, (40, 200000) if q else (80, 200000)))
         ctx.coverage["t_notifier"] = round(time.time() - ctx.t0, 1)
@@ -489,14 +585,15 @@ def run(ctx):
         (rest if v["key"] in seen else firsts).append(v)
         seen.add(v["key"])
     ctx.violations[:] = firsts + rest
-    ev = rstats.get("events_recorded", 0) + nstats.get("publishes", 0) + istats.get("issue_ops", 0)
+    ev = rstats.get("events_recorded", 0) + nstats.get("publishes", 0) + istats.get("issue_ops", 0) + lstats.get("records", 0)
     ctx.coverage.update({
         "evaluations": ev,
-        "distinct_nontrivial": rstats.get("judged", 0) + nstats.get("deliveries_judged", 0) + istats.get("certificates_returned", 0),
+        "distinct_nontrivial": rstats.get("judged", 0) + nstats.get("deliveries_judged", 0) + istats.get("certificates_returned", 0)
+        + lstats.get("judged", 0),
         "rule": "evaluations = events recorded + events published + issuing requests; non-trivial = per-user save→load / expire "
                 "comparisons judged + subscriber delivery logs judged + issuing requests that returned a certificate "
                 "(each compared byte-for-byte with what the subscribers received)",
-        "recorder": rstats, "notifier": nstats, "issuing": istats,
+        "recorder": rstats, "recorder_event_loop": lstats, "notifier": nstats, "issuing": istats,
         "tables": {"issue_sites": facts["c20"]["issue_sites"], "sends": facts["c20"]["sends"], "locks": facts["c20"]["locks"],
                    "notifier_chan_cap": facts["c20"]["notifier_chan_cap"], "retention_s": retention},
         "samples": [],
